@@ -205,6 +205,9 @@ def run(ctx):
     ctx.rule("R04.8", "values handed to trigger expressions: event values first, then last known values / attributes, '.old' attributes from the event, None for unknown names of 2-4 parts", floor=40)
     var_get_table(ctx, program, "R04.8")
 
+    ctx.rule("R04.9", "state trigger arguments: names of the form DOMAIN.name[.attr|.*] are any-change triggers, everything else is an expression (several are or-ed with any([...])) - same in both subsystems", floor=10)
+    state_args_table(ctx, program, "R04.9")
+
     ctx.rule("R04.4", "names referenced by a trigger expression: the analysis descends into every construct (only names and dotted names end the descent)", floor=1)
     f = program.func("eval.py::AstEval.get_names_set")
     early = []
@@ -414,3 +417,65 @@ def var_get_table(ctx, program, rid):
                     label = f"{name}: event {'carries' if ev else 'lacks'} d.e, last value {'known' if known else 'unknown'}, name {'exists' if exists else 'does not exist'}"
                     ctx.check(got == {want}, rid, uid, label, msg=f"notify_var_get(['{name}']) with {label}: value {sorted(map(repr, got))}, specified {want!r}: the trigger expression is evaluated "
                               f"with a wrong or missing value (NameError/AttributeError makes the trigger false)", key=f"var_get {label}", node=program.func(uid), rel="state.py")
+
+
+def state_args_table(ctx, program, rid):
+    """Argument lists of @state_trigger through the legacy constructor and the new validator + validate()."""
+    cases = [
+        (["d.a"], {"d.a"}, None), (["d.a.attr"], {"d.a.attr"}, None), (["d.a.*"], {"d.a.*"}, None), (["d.a == '1'"], set(), "d.a == '1'"),
+        (["d.a", "d.b == '1'"], {"d.a"}, "d.b == '1'"), (["d.a > 1", "d.b > 2"], set(), "any([d.a > 1, d.b > 2])"),
+        ([["d.a", "d.b > 1"], "x.y > 2"], {"d.a"}, "any([d.b > 1, x.y > 2])"), (["d.a.b.c"], set(), "d.a.b.c"), (["plain"], set(), "plain"),
+        (["d.a ", ], set(), "d.a "),
+    ]
+
+    def to_av(x):
+        return ListV(tuple(to_av(y) for y in x), "list") if isinstance(x, list) else Const(x)
+
+    luid = "trigger.py::TrigInfo.__init__"
+    nuid = "decorators/state.py::StateTriggerDecorator.validate"
+    vuid = "decorators/state.py::_validate_state_trigger_args"
+    for args, want_any, want_expr in cases:
+        # legacy
+        parsed = []
+        pol = FlowPolicy(program, may_raise_all=False, cancel=False,
+                         summaries={"AstEval": lambda i, n, a, k, c, o: [(c, ObjV("expr", "AstEval"))], "Function.install_ast_funcs": lambda i, n, a, k, c, o: [(c, NONE)],
+                                    "self.state_trig_eval.parse": lambda i, n, a, k, c, o, parsed=parsed: (parsed.append(a[0]), [(c, NONE)])[1],
+                                    "asyncio.Queue": lambda i, n, a, k, c, o: [(c, ObjV("q", "Queue"))]})
+        pol.loop_unroll = 8
+        cfg = DictV([(Const("state_trigger"), DictV([(Const("args"), to_av(args)), (Const("kwargs"), DictV([]))])), (Const("action"), ObjV("act", "EvalFunc")), (Const("global_sym_table"), DictV([]))])
+        out = run_flow(program, luid, pol, args={"self": ObjV("self", "TrigInfo"), "name": Const("file.x.f"), "trig_cfg": cfg, "global_ctx": ObjV("g", "GlobalContext")})
+        got = set()
+        for k, c, d in exits(out):
+            anyset = c.heap.get("self.state_trig_ident_any")
+            got.add((k, frozenset(x.v for x in anyset.items) if isinstance(anyset, ListV) else repr(anyset), tuple(x.v if isinstance(x, Const) else repr(x) for x in parsed)))
+        want = {("return", frozenset(want_any), (want_expr,) if want_expr is not None else ())}
+        ctx.check(got == want, rid, luid, f"legacy: @state_trigger{tuple(args)}", msg=f"legacy TrigInfo with @state_trigger{tuple(args)}: (any-change names, parsed expression) = {sorted(map(repr, got))}, "
+                  f"specified {sorted(map(repr, want))}", key=f"legacy state args {args}", node=program.func(luid), rel="trigger.py")
+        # new: validator, then validate()
+        polv = FlowPolicy(program, may_raise_all=False, cancel=False, globals_={"vol": Sym(("g", "vol"))})
+        polv.loop_unroll = 8
+        o0 = run_flow(program, vuid, polv, args={"args": to_av(args)})
+        norm_args = [c.env.get("$ret") for k, c, d in exits(o0) if k == "return"]
+        created = []
+
+        def create_expression(i, n, a, k, c, o, created=created):
+            created.append(a[0])
+            return [(c.hset("self._ast_expression", ObjV("expr", "AstEval")), NONE)]
+
+        summ = {"super().validate": lambda i, n, a, k, c, o: [(c, NONE)], "self.create_expression": create_expression,
+                "self.has_expression": lambda i, n, a, k, c, o: [(c, Const(c.heap.get("self._ast_expression", NONE) != NONE))],
+                "self._ast_expression.get_names": lambda i, n, a, k, c, o: [(c, ListV((Const("d.z"),), "set"))]}
+        pol2 = FlowPolicy(program, may_raise_all=False, cancel=False, summaries=summ, globals_={"WaitUntilDecoratorManager": ClassV("WaitUntilDecoratorManager")})
+        pol2.loop_unroll = 8
+        got2 = set()
+        if len(norm_args) == 1 and isinstance(norm_args[0], ListV):
+            heap = {"self.args": norm_args[0], "self.kwargs": DictV([]), "self.dm": ObjV("dm", "FunctionDecoratorManager"), "self.state_check_now": NONE, "self._ast_expression": NONE,
+                    "self.name": Const("f")}
+            o2 = run_flow(program, nuid, pol2, args={"self": ObjV("self", "StateTriggerDecorator")}, heap=heap)
+            for k, c, d in exits(o2):
+                anyset = c.heap.get("self.state_trig_ident_any")
+                got2.add((k, frozenset(x.v for x in anyset.items) if isinstance(anyset, ListV) else repr(anyset), tuple(x.v if isinstance(x, Const) else repr(x) for x in created)))
+        else:
+            got2.add(("validator", repr(norm_args), ()))
+        ctx.check(got2 == want, rid, nuid, f"new: @state_trigger{tuple(args)}", msg=f"new subsystem with @state_trigger{tuple(args)}: (any-change names, expression) = {sorted(map(repr, got2))}, "
+                  f"specified {sorted(map(repr, want))}", key=f"new state args {args}", node=program.func(nuid), rel="decorators/state.py")
